@@ -233,7 +233,7 @@ class Ctx:
         ev = {"property_id": self.prop, "tier": self.tier, "seed": self.seed, "level": self.level,
               "coverage": cov, "assumptions": self.assumptions, "wall_s": round(self.elapsed(), 1),
               "violations": len(self.violations)}
-        if self.replay is None:
+        if self.replay is None and not os.environ.get("VERIF_NO_EVIDENCE"):
             os.makedirs(EVIDENCE_DIR, exist_ok=True)
             with open(os.path.join(EVIDENCE_DIR, self.prop + ".json"), "w") as fh:
                 json.dump(_jsonable(ev), fh, indent=1)
